@@ -507,7 +507,7 @@ class Array:
         qdata = []
         for qindices in res._iter_all_blocks():
             sl = res._get_block_slices(qindices)
-            if np.all(res._get_block_charge(qindices) == qtotal):
+            if np.all(res._get_block_charge(qindices) == res.qtotal):
                 data.append(np.array(data_flat[sl], dtype=res.dtype))  # copy data
                 data_flat[sl] = 0
                 qdata.append(qindices)
